@@ -53,6 +53,9 @@ type Core struct {
 
 	// A `stack` of labels to jump to if an exception is raised
 	ExceptionCatchLabels []CallFrame
+	// For each catch label, the state of the core when its `try` block was entered.
+	// An exception restores this state before the handler runs.
+	tryStates []tryState
 
 	// Points to the start of the current stackframe
 	// Then, the absolute index can be computed by adding the value of mp and the relative offset of the memory location.
@@ -61,6 +64,14 @@ type Core struct {
 	CancelCtx *context.Context
 	// Describes some resource limits for the current core
 	Limits CoreLimits
+}
+
+// The state of a core at the moment a `try` block is entered.
+type tryState struct {
+	// Index of the call frame which entered the `try` block
+	frameIndex    uint
+	stackHeight   uint
+	memoryPointer int64
 }
 
 type CoreLimits struct {
@@ -91,6 +102,7 @@ func NewCore(
 		Corenum:              coreNum,
 		SignalHandle:         handle,
 		ExceptionCatchLabels: []CallFrame{},
+		tryStates:            []tryState{},
 		MemoryPointer:        0,
 		CancelCtx:            ctx,
 		Limits:               limits,
@@ -121,6 +133,20 @@ func (core *Core) pushCallStack(function string) {
 
 func (core *Core) popCallStack() {
 	core.CallStack = core.CallStack[:len(core.CallStack)-1]
+}
+
+func (core *Core) pushTryLabel(label CallFrame) {
+	core.ExceptionCatchLabels = append(core.ExceptionCatchLabels, label)
+	core.tryStates = append(core.tryStates, tryState{
+		frameIndex:    uint(len(core.CallStack) - 1),
+		stackHeight:   uint(len(core.Stack)),
+		memoryPointer: core.MemoryPointer,
+	})
+}
+
+func (core *Core) popTryLabel() {
+	core.ExceptionCatchLabels = core.ExceptionCatchLabels[:len(core.ExceptionCatchLabels)-1]
+	core.tryStates = core.tryStates[:len(core.tryStates)-1]
 }
 
 func (core *Core) callFrame() *CallFrame {
@@ -180,7 +206,7 @@ outer:
 			self.SignalHandle <- self.fatalErr(
 				fmt.Sprintf("Runtime stack limit of %d was exceeded by %d", self.Limits.StackMaxSize, len(self.Stack)-int(self.Limits.StackMaxSize)),
 				value.VMFatalExceptionKind(value.Vm_StackOverFlowErrorKind),
-				self.parent.SourceMap(self.CallStack[len(self.CallStack)-2]),
+				self.parent.SourceMap(*self.callFrame()),
 			)
 			return
 		}
@@ -305,19 +331,26 @@ outer:
 				case value.Vm_NormalExceptionInterruptKind:
 					throwError := (*i).(value.Vm_NormalException)
 
+					// Discard the catch-blocks of function calls which have already returned.
+					for len(self.tryStates) > 0 && self.tryStates[len(self.tryStates)-1].frameIndex >= uint(len(self.CallStack)) {
+						self.popTryLabel()
+					}
+
 					// If there is no catch-block, terminate this core
 					if len(self.ExceptionCatchLabels) == 0 {
 						self.SignalHandle <- self.fatalErr(throwError.Message(), value.Vm_UncaughtThrowKind, throwError.Span)
 						return
 					}
 
-					// If the exception occurred in another function, also pop the call frame of this function
-					// If this was not the case, a function would basically "return twice",
-					// as the jump to the error-handling code would not pop the most current call frame.
+					// Unwind to the function call which entered the `try` block: drop the call frames,
+					// operands and memory of all calls made since, then continue at the catch label.
 					catchLocation := self.ExceptionCatchLabels[len(self.ExceptionCatchLabels)-1]
-					if self.callFrame().Function != catchLocation.Function {
-						self.popCallStack()
+					state := self.tryStates[len(self.tryStates)-1]
+					self.CallStack = self.CallStack[:state.frameIndex+1]
+					if state.stackHeight < uint(len(self.Stack)) {
+						self.Stack = self.Stack[:state.stackHeight]
 					}
+					self.MemoryPointer = state.memoryPointer
 					*self.callFrame() = catchLocation
 
 					self.push(
